@@ -87,8 +87,8 @@ theorem globalView_rename (P : Project) (f : Nat) :
   simp only [globalView, applyRename_decls, List.filter_map, List.map_append]
   have h1 : ((fun c : Decl => c.scope == 0 && c.file == f) ∘ renameDecl d n) = (fun c => c.scope == 0 && c.file == f) := by
     funext c; simp [Function.comp]
-  have h2 : ((fun c : Decl => c.scope == 0 && c.file != f && c.kind != .var) ∘ renameDecl d n) =
-      (fun c => c.scope == 0 && c.file != f && c.kind != .var) := by
+  have h2 : ((fun c : Decl => c.scope == 0 && c.file != f && c.kind != .var && c.kind != .enumval) ∘ renameDecl d n) =
+      (fun c => c.scope == 0 && c.file != f && c.kind != .var && c.kind != .enumval) := by
     funext c; simp [Function.comp]
   rw [h1, h2]
 
